@@ -20,7 +20,7 @@ PROP = {
     "tags": {"0": "token accepted", "1": "rejected: does not parse as a JWT", "2": "rejected: issuer", "3": "rejected: audience", "4": "rejected: infohash claim",
              "5": "rejected: no kid", "6": "rejected: kid not published", "7": "rejected: alg is not RS256", "8": "rejected: signature does not verify under the published key",
              "9": "rejected: expired", "10": "rejected: not yet valid", "20": "no jwt parameter", "21": "scrape (never checked)", "22": "initial fetch failed: no hook",
-             "23": "a refresh with a well-formed set failed", "30": "history with a failing refresh", "31": "history of successful refreshes",
+             "23": "a refresh with a well-formed set failed", "24": "history fetched by the hook's own refresh loop", "30": "history with a failing refresh", "31": "history of successful refreshes",
              "50": "race detector run", "51": "verdicts during concurrent refreshes",
              "52": "announces while a fetch is in flight and the issuer rotates"},
     "trivial_tags": [], "min_tags": 14,
@@ -31,6 +31,7 @@ PROP = {
                 "9": "a currently valid token was rejected", "10": "an announce without a jwt parameter passed", "12": "a scrape was rejected by the JWT hook",
                 "14": "the hook panicked while deciding on a token (in the UDP frontend that takes the whole tracker down): no verdict at all",
                 "13": "a refresh that was served a well-formed JWK set failed (it cannot take effect for later announces)",
+                "15": "the hook's periodic refresh has stopped: with an update interval of 3 ms the endpoint's new content was not fetched twice within 5 s (a rotation can no longer take effect)",
                 "20": "DATA RACE reported by the race detector between the refresh goroutine (write of hook.publicKeys in updateKeys) and HandleAnnounce (read) - F5",
                 "21": "during concurrent refreshes a verdict was neither the one under the old nor the one under the new key set",
                 "22": "an announce was decided under a key set the hook can no longer (or not yet) hold: no choice of versions that only moves forward - at least the newest "
